@@ -176,7 +176,7 @@ def work(item):
                     one_inc, _ = run_fragments(IterativeParser, rules, "<start>", (w,), counter, mode=ParsingMode.INCOMPLETE)
             except Exception:
                 one_inc = None
-            if one_inc is not None:
+            if one_inc is not None and len(w) <= 5:   # (prefix mode doubles the schedule count: bounded to words of <= 5 symbols in both tiers)
                 for parts in compositions(w):
                     if len(parts) == 1:
                         continue
